@@ -1338,6 +1338,7 @@ package engine
 //@ ---------------------------------------------------------------- package-level state shared by all interpreters (C14)
 //@ global atomTable guarded-by
 //@ global varCounter atomic except lastVariable
+//@ global write-through-exempt (*operators).init writes its receiver only when the table is nil (lazy initialisation, see its C18 contract); a table that exists is not written
 //@ global memFree test-hook
 //@ global openFile test-hook
 //@ global osExit test-hook
